@@ -24,7 +24,9 @@
      fx_search      ares_search_next(): skip_cleanup always         (e732c3e)
      fx_revalidate  ares_send_query(): look the query up again after the connection it could
                     not be written to was closed                    (3a27dcb)
-     fx_connread    read_answers(): connection kept alive while being read (eb0f53d)     *)
+     fx_connread    read_answers(): connection kept alive while being read (eb0f53d)
+     fx_qidearly    ares_send_nolock(): *qid = id before ares_send_query, not after
+                    (fixes/C01-qid-before-send.patch)                                     *)
 From Coq Require Import List ZArith Lia Bool Arith.
 Import ListNotations.
 From CAres.Base Require Import Outcome.
@@ -37,9 +39,9 @@ Definition tok := nat.
 Definition EDESYNC : Z := (-2)%Z.      (* tape does not fit / inadmissible choice *)
 Definition EINTERNAL : Z := (-3)%Z.    (* model-internal inconsistency (never, see proofs) *)
 
-Record fixes := { fx_unlink : bool; fx_search : bool; fx_revalidate : bool; fx_connread : bool }.
-Definition all_fixed := {| fx_unlink := true; fx_search := true; fx_revalidate := true; fx_connread := true |}.
-Definition pinned := {| fx_unlink := false; fx_search := false; fx_revalidate := false; fx_connread := false |}.
+Record fixes := { fx_unlink : bool; fx_search : bool; fx_revalidate : bool; fx_connread : bool; fx_qidearly : bool }.
+Definition all_fixed := {| fx_unlink := true; fx_search := true; fx_revalidate := true; fx_connread := true; fx_qidearly := true |}.
+Definition pinned := {| fx_unlink := false; fx_search := false; fx_revalidate := false; fx_connread := false; fx_qidearly := false |}.
 
 Record config := {
   cf_fix : fixes;
@@ -344,6 +346,15 @@ Definition link_all (qo : obj) : M unit :=
 (* ---------------------------------------------------------------------------------- *)
 (* The mutually recursive part: everything that may run a user callback                *)
 (* ---------------------------------------------------------------------------------- *)
+(* "*qid = id" in ares_send_nolock when the caller passed &hquery->qid_a / &hquery->qid_aaaa *)
+Definition write_qid (qd : option (obj * bool)) (qid : nat) : M unit :=
+  match qd with
+  | None => ret tt
+  | Some (o, aaaa) =>
+      let! h := get_host o in
+      store o (CHost (if aaaa then h_set_qids (h_qid_a h) qid h else h_set_qids qid (h_qid_aaaa h) h))
+  end.
+
 Section Run.
 Variable cf : config.
 Let fx := cf_fix cf.
@@ -414,17 +425,17 @@ with api (fuel : nat) (c : call) {struct fuel} : M unit :=
   | ANop => ret tt
   | ACancel => cancel f
   | ASync t st => emit (EvReq t) ;; invoke f (KUser t) (res st)
-  | ASend t => emit (EvReq t) ;; let! _ := send_nolock f (KUser t) false in ret tt
+  | ASend t => emit (EvReq t) ;; let! _ := send_nolock f (KUser t) false None in ret tt
   | ASendRaw t =>
       emit (EvReq t) ;;
       let! o := alloc COpaque in
-      let! _ := send_nolock f (KWrap WConv o (KUser t)) false in ret tt
-  | AQuery t => emit (EvReq t) ;; let! _ := query_nolock f (KUser t) in ret tt
+      let! _ := send_nolock f (KWrap WConv o (KUser t)) false None in ret tt
+  | AQuery t => emit (EvReq t) ;; let! _ := query_nolock f (KUser t) None in ret tt
   | AOQuery t create_rc =>
       emit (EvReq t) ;;
       let! o := alloc COpaque in
       if zeqb create_rc ARES_SUCCESS
-      then let! _ := query_nolock f (KWrap WConv o (KUser t)) in ret tt
+      then let! _ := query_nolock f (KWrap WConv o (KUser t)) None in ret tt
       else invoke f (KWrap WConv o (KUser t)) (res create_rc)
   | ASearch t names => emit (EvReq t) ;; let! _ := search_int f (KUser t) names in ret tt
   | AOSearch t names =>
@@ -451,15 +462,15 @@ with api (fuel : nat) (c : call) {struct fuel} : M unit :=
       host_next_lookup f o ARES_ECONNREFUSED
   end end
 
-(* ares_query_nolock (after ares_dns_record_create_query succeeded) *)
-with query_nolock (fuel : nat) (k : cbk) {struct fuel} : M (Z * option nat) :=
+(* ares_query_nolock (after ares_dns_record_create_query succeeded); qd: where the caller wants the id *)
+with query_nolock (fuel : nat) (k : cbk) (qd : option (obj * bool)) {struct fuel} : M Z :=
   match fuel with O => fail OutOfFuel | S f =>
   let! o := alloc COpaque in
-  send_nolock f (KWrap WQQuery o k) false
+  send_nolock f (KWrap WQQuery o k) false qd
   end
 
-(* ares_send_nolock; returns the status and, if "*qid = id" was executed, the id *)
-with send_nolock (fuel : nat) (k : cbk) (probe : bool) {struct fuel} : M (Z * option nat) :=
+(* ares_send_nolock *)
+with send_nolock (fuel : nat) (k : cbk) (probe : bool) (qd : option (obj * bool)) {struct fuel} : M Z :=
   match fuel with O => fail OutOfFuel | S f =>
   let! qid := gen_qid 8 in
   let! cached :=
@@ -470,7 +481,7 @@ with send_nolock (fuel : nat) (k : cbk) (probe : bool) {struct fuel} : M (Z * op
                                else ret (Some {| r_status := rc; r_rec := if zeqb rc ARES_SUCCESS then Some (rcode, an, id) else None |})
            | _ => fail EDESYNC end) in
   match cached with
-  | Some r => invoke f k r ;; ret (r_status r, None)
+  | Some r => invoke f k r ;; ret (r_status r)
   | None =>
     let! e := pop in
     match e with
@@ -478,15 +489,17 @@ with send_nolock (fuel : nat) (k : cbk) (probe : bool) {struct fuel} : M (Z * op
       if negb (zeqb rc ARES_SUCCESS) then
         let st := if zeqb rc ARES_EBADRESP then ARES_EBADQUERY else rc in
         (* ares_free(query) of the not yet linked query, then the callback *)
-        invoke f k (res st) ;; ret (st, None)
+        invoke f k (res st) ;; ret st
       else
         (if cf_dns0x20 cf then (let! e := peek in match e with Some (TN _) => let! _ := pop in ret tt | _ => ret tt end) else ret tt) ;;
         let! qo := alloc (CQuery {| q_qid := qid; q_cb := k; q_conn := None; q_try := 0; q_noretry := probe;
                                     q_tcp := false; q_err := ARES_SUCCESS |}) in
         link_all qo ;;
         modify (fun s => set_byqid ((qid, qo) :: st_byqid s) s) ;;
+        (if fx_qidearly fx then write_qid qd qid else ret tt) ;;
         let! st := send_query f qo in
-        ret (st, if zeqb st ARES_SUCCESS then Some qid else None)
+        (if negb (fx_qidearly fx) && zeqb st ARES_SUCCESS then write_qid qd qid else ret tt) ;;
+        ret st
     | _ => fail EDESYNC end
   end end
 
@@ -529,7 +542,7 @@ with send_query_write (fuel : nat) (qo : obj) (opened : bool) {struct fuel} : M 
       attach_frag qo co tcp ;;
       (* ares_probe_failed_server *)
       let! s := get in
-      (if probe_ahead (st_tape s) then let! _ := send_nolock f KProbe true in ret tt else ret tt) ;;
+      (if probe_ahead (st_tape s) then let! _ := send_nolock f KProbe true None in ret tt else ret tt) ;;
       ret ARES_SUCCESS
     else if zeqb wrc ARES_ENOMEM then
       end_query f qo wrc (res wrc) ;; ret wrc
@@ -710,7 +723,7 @@ with search_next (fuel : nat) (o : obj) (k : cbk) (lft : list cand) (nodata : bo
     match e with
     | TN rc =>
       if negb (zeqb rc ARES_SUCCESS) then ret (rc, false) else
-      let! (st, _) := send_nolock f (KSearch o k cur lft' nodata) false in
+      let! st := send_nolock f (KSearch o k cur lft' nodata) false None in
       ret (st, if fx_search fx then true else negb (zeqb st ARES_EFORMERR))
     | _ => fail EDESYNC end
   end end
@@ -747,7 +760,7 @@ with addr_next_lookup (fuel : nat) (o : obj) (k : cbk) (lft : list bool) {struct
   match fuel with O => fail OutOfFuel | S f =>
   let! _ := touch o in
   match lft with
-  | true :: lft' => let! _ := query_nolock f (KAddr o k lft') in ret tt
+  | true :: lft' => let! _ := query_nolock f (KAddr o k lft') None in ret tt
   | false :: lft' => addr_next_lookup f o k lft'      (* file lookup: the hosts file is empty *)
   | [] => end_aquery f o k (res ARES_ENOTFOUND)
   end end
@@ -791,18 +804,12 @@ with host_next_dns_lookup (fuel : nat) (o : obj) {struct fuel} : M unit :=
   let! h := get_host o in
   let n := if Nat.eqb (h_family h) 0 then 2 else 1 in
   store o (CHost (h_set_remaining (h_remaining h + n) (h_set_names (tl (h_names h)) (hd false (h_names h)) h))) ;;
-  (* first (or only) query; ares_send_nolock stores the id through &hquery->qid_a / qid_aaaa *)
-  let! (_, w1) := query_nolock f (KHost o) in
-  (match w1 with
-   | Some qid1 =>
-     let! h := get_host o in
-     store o (CHost (if Nat.eqb (h_family h) 6 then h_set_qids (h_qid_a h) qid1 h else h_set_qids qid1 (h_qid_aaaa h) h))
-   | None => ret tt end) ;;
+  (* first (or only) query; ares_send_nolock stores the id through &hquery->qid_a / qid_aaaa.
+     NOTE (ares_getaddrinfo.c): hquery may be invalidated during the call and is not referenced
+     after the last one *)
+  let! _ := query_nolock f (KHost o) (Some (o, Nat.eqb (h_family h) 6)) in
   if Nat.eqb n 2 then
-    let! (_, w2) := query_nolock f (KHost o) in
-    match w2 with
-    | Some qid2 => let! h := get_host o in store o (CHost (h_set_qids (h_qid_a h) qid2 h))
-    | None => ret tt end
+    let! _ := query_nolock f (KHost o) (Some (o, true)) in ret tt
   else ret tt
   end
 
